@@ -1045,7 +1045,15 @@ func canonCall(c *Expr) *Expr {
 	}
 	switch {
 	case n == "bytes.Equal" && two:
-		return orderPair("==", c.Args[0], c.Args[1], c.Val) // same relation as == on arrays of bytes
+		a0, a1 := c.Args[0], c.Args[1]
+		// h1.Bytes() equals h2.Bytes() exactly when the fixed-size values h1 and h2 are equal
+		isBytesOf := func(e *Expr) bool {
+			return e.Op == "call" && len(e.Args) == 1 && (e.Name == "go-ethereum/common.(Hash).Bytes" || e.Name == "go-ethereum/common.(Address).Bytes")
+		}
+		if isBytesOf(a0) && isBytesOf(a1) && a0.Name == a1.Name {
+			a0, a1 = a0.Args[0], a1.Args[0]
+		}
+		return orderPair("==", a0, a1, c.Val) // same relation as == on arrays of bytes
 	case two && (strings.Contains(n, "Height)") || strings.Contains(n, "exported.Height.")) && isOrd(last):
 		return ordRewrite(last, "H", c)
 	case two && (strings.HasPrefix(n, "cosmos-sdk/types.(Int)") || strings.HasPrefix(n, "cosmos-sdk/types.(Dec)") || strings.HasPrefix(n, "cosmos-sdk/types.(Uint)")) && isOrd(last):
